@@ -601,6 +601,27 @@ def _overflow(ctx, oa, b, cfg, tr, bi, t):
             return 'discharged', 'size-arithmetic', 'operands in [%d, %d] and [%d, %d] (collection lengths bounded by isize::MAX / ' \
                 'element size, constants): the %s result fits %s' % (ia[0], ia[1], ic[0], ic[1], a.get('ty'), a.get('ty'))
     ao, co = tr.origin(a), tr.origin(c)
+    if binop == 'Add' and _plain(ic) and ic[0] >= 0 and ao['o'] == 'local' and not ao.get('p') and rng is not None:
+        # the checked addition IS the step of an accumulator x (its result flows back into x): the new value of x lies in the
+        # interval of x over the whole loop
+        from ..mirutil import copy_web
+        x = ao['l']
+        web = copy_web(b, tr, cfg.reach, x)
+        feeds = False
+        for l2 in web:
+            for (dbi, si, kind, rv) in tr.defs.of(l2):
+                if kind == 'assign' and rv['r'] == 'use' and 'l' in rv['a']:
+                    o2 = tr.origin(rv['a'])
+                    if o2['o'] == 'rvalue' and o2.get('bb') == bi and o2['rv'].get('r') == 'binop' and o2['rv']['op'].startswith('Add'):
+                        feeds = True
+        if feeds:
+            try:
+                ix = sz.interval(b, {'k': 'copy', 'l': x, 'p': [], 'ty': a.get('ty')})
+            except Exception:      # noqa: BLE001
+                ix = None
+            if _plain(ix) and rng[0] <= ix[0] and ix[1] <= rng[1]:
+                return 'discharged', 'accumulator-bound', 'the sum stays in [%d, %d] over the whole loop (terms in [%d, %d], ' \
+                    'iterations bounded by the range / collection)' % (ix[0], ix[1], ic[0], ic[1])
     sigk = 'Overflow:%s' % binop
     rhs_const1 = co['o'] == 'const' and const_value(co['c']) == 1
     # D5 bounded counter: x += 1; if x > K { leave }
@@ -842,7 +863,16 @@ def _loop_counter(oa, b, cfg, tr, x, bi):
 
 def _panic_guard(oa, b, cfg, tr, bi):
     """Classify an explicit panic in the stepping function by what it is control dependent on."""
-    preds = cfg.pred[bi]
+    # the branch the panic is control dependent on: the nearest switch above it (through the straight-line blocks a spliced
+    # closure or helper leaves between the branch and the panic)
+    cur = bi
+    for _ in range(12):
+        ps = [p for p in cfg.pred[cur] if p in cfg.reach]
+        if len(ps) == 1 and b.blocks[ps[0]]['term']['t'] == 'goto':
+            cur = ps[0]
+            continue
+        break
+    preds = [p for p in cfg.pred[cur] if p in cfg.reach]
     for p in preds:
         t = b.blocks[p]['term']
         if t['t'] != 'switch':
@@ -1179,7 +1209,7 @@ def _r3(ctx, oa):
         t = bb['term']
         if t['t'] == 'call':
             nm = callee_name(t) or ''
-            tg = [s for s in cg.sites.get(b.path, []) if s['bb'] == bi and s['targets']]
+            tg = [s for s in cg.sites_for(b) if s['bb'] == bi and s['targets']]
             for s in tg:
                 p = cg.path_to(s['targets'], lambda k: k == 'basis::SharedValue::set_value')
                 if p:
